@@ -12,7 +12,7 @@ ANCHORS = ["pyoma2.functions.fdd:SD_PreGER", "pyoma2.functions.fdd:SD_est", "pyo
 REQUIRED_MONITORS = ["one-recording@SD_PreGER", "one-recording@FDD_MS", "one-recording@EFDD_MS", "one-recording@pLSCF_MS",
                      "general-blocks@SD_PreGER", "gain-metamorphic@SD_PreGER"]
 ALL_STATES = [f"{m}|pov={p:g}" for m in ("per", "cor") for p in (0, 0.25, 0.5, 0.75)] + ["refs listed out of order", "4 setups", "3 references"]
-REQUIRED_STATES = ["per|pov=0", "per|pov=0.25", "per|pov=0.75", "cor|pov=0.25", "refs listed out of order", "recording amplitude < 1e-4", "one setup with gain < 1e-3"]
+REQUIRED_STATES = ["per|pov=0", "per|pov=0.25", "per|pov=0.75", "cor|pov=0.25", "refs listed out of order", "recording amplitude < 1e-4", "one setup with gain < 1e-3", "identical reference records except in a middle setup", "second recording analysed with the same settings"]
 RULE = ("one coloured-noise recording (2..9 channels, >= 4 segments) cut into 2..4 setups sharing 1..3 references at arbitrary positions; "
         "merged matrix compared line by line with SD_est(all channels in [ref|rov_1|rov_2..] order, ref) at the same nxseg/pov/estimator "
         "(tolerance 1e-9*cond(G_refref), lines with cond > 1e8 not judged); independent recordings: blocks recomputed from per-setup SD_est; "
@@ -123,6 +123,16 @@ def run_general(ctx, rng):
         ctx.state("one setup with gain < 1e-3")
     # independent recordings of one coloured process family per setup (own length)
     recs = [gen.coloured(rng, ndof, int(N * rng.uniform(1, 1.5))) for _ in range(nset)]
+    if nset >= 3 and rng.random() < 0.35:
+        # the reference sensors recorded the same signal in every setup (one long test cut up / repeated excitation) and were stored with
+        # the same gain - except in ONE setup in the middle of the list
+        recs = [recs[0]] * nset
+        g0 = gains[0]
+        mid = int(rng.integers(1, nset - 1))
+        gains = [g0] * nset
+        fac = float(10 ** rng.uniform(0.3, 1.5))
+        gains[mid] = g0 * float(rng.choice([-1, 1])) * (fac if rng.random() < 0.5 else 1 / fac)
+        ctx.state("identical reference records except in a middle setup")
     datasets = [g * R[cg].T.copy() for g, R, cg in zip(gains, recs, chan_glob)]
     Y = G_.pre_multisetup(datasets, [list(r) for r in reflist])
     f, S = fdd.SD_PreGER(Y, fs=fs, nxseg=nx, pov=pov, method=method)
@@ -195,9 +205,22 @@ def run_one_classes(ctx, rng):
 
     nset, nref, nrov, ndof, chan_glob, reflist = draw_layout(rng)
     nx, pov, method, N, fs = draw_params(rng, small=True)
+    rows = order_all(nref, chan_glob, reflist)
+    # history: a second analysis in the same process - another recording, the same layout and the same spectral settings
+    for rep in range(2):
+        one_classes_pass(ctx, rng, rep, nset, nref, nrov, ndof, chan_glob, reflist, rows, nx, pov, method, N, fs)
+    ctx.state("second recording analysed with the same settings")
+    ctx.state(f"{method}|pov={pov:g}")
+    ctx.nontrivial(("one_cls", nset, nref, tuple(nrov), nx, pov, method))
+
+
+def one_classes_pass(ctx, rng, rep, nset, nref, nrov, ndof, chan_glob, reflist, rows, nx, pov, method, N, fs):
+    from pyoma2.algorithms import EFDD_MS, FDD_MS, pLSCF_MS
+    from pyoma2.functions import fdd
+    from pyoma2.setup import MultiSetup_PreGER
+
     X = gen.coloured(rng, ndof, N)
     datasets = [X[cg].T.copy() for cg in chan_glob]
-    rows = order_all(nref, chan_glob, reflist)
     f2, E = fdd.SD_est(X[rows], X[:nref], 1 / fs, nx, method=method, pov=pov)
     ms = MultiSetup_PreGER(fs=fs, ref_ind=[list(r) for r in reflist], datasets=datasets)
     algs = [FDD_MS(name="FDD_MS", nxseg=nx, method_SD=method, pov=pov), EFDD_MS(name="EFDD_MS", nxseg=nx, method_SD=method, pov=pov),
@@ -220,9 +243,7 @@ def run_one_classes(ctx, rng):
                     return "pov_ignored(equals pov=0.5 estimate)"
             return ""
 
-        compare_lines(ctx, f"one-recording@{a.name}", np.asarray(r.Sy), E, E[:nref], "cls_one", hint)
-    ctx.state(f"{method}|pov={pov:g}")
-    ctx.nontrivial(("one_cls", nset, nref, tuple(nrov), nx, pov, method))
+        compare_lines(ctx, f"one-recording@{a.name}", np.asarray(r.Sy), E, E[:nref], "cls_one" if rep == 0 else "cls_one_second_recording", hint)
 
 
 def run_case(ctx, case):
